@@ -5,6 +5,7 @@ import (
 	"math"
 	"math/rand"
 	"reflect"
+	"regexp"
 	"sort"
 	"strconv"
 	"strings"
@@ -32,6 +33,7 @@ type cval struct {
 	list   []*cval          // list
 	keys   map[string]*cval // object addressed to a map
 	node   *model.Node      // tree addressed to a *Config field (never modified)
+	real   int              // form fields: how many settings a field may read (nulls and noise not counted)
 	form   string           // "prim", "fields", "list", "keys", "raw", "node"
 }
 
@@ -285,8 +287,21 @@ func (g *vgen) prim(t reflect.Type, h hint) reflect.Value {
 		default:
 			v.SetInt(int64(1+r.Intn(5000)) * int64([]time.Duration{time.Millisecond, time.Second, time.Minute}[r.Intn(3)]))
 		}
+	case "regexp":
+		v.Set(reflect.ValueOf(*regexp.MustCompile(patterns[r.Intn(len(patterns))])))
 	}
 	return v
+}
+
+var patterns = []string{"abc", "^a.*b$", "[0-9]+", "(x|y)z", `\d{2}`, "\u00e9+", "a", "^$"}
+
+// rxString reads the expression of a regexp.Regexp held by value.
+func rxString(v reflect.Value) string {
+	if v.CanInterface() {
+		rx := v.Interface().(regexp.Regexp)
+		return rx.String()
+	}
+	return v.FieldByName("expr").String()
 }
 
 var durationStrings = []string{"1s", "1m30s", "250ms", "2h45m", "-3s", "1.5h", "90m", "7us"}
@@ -351,6 +366,8 @@ func (g *vgen) setting(t reflect.Type, h hint) *cval {
 		} else {
 			c.raw = f
 		}
+	case "regexp":
+		c.raw = rxString(want)
 	case "duration":
 		switch {
 		case h.has:
@@ -428,7 +445,28 @@ func (g *vgen) fillField(f *field, v reflect.Value) {
 		if !zero {
 			p := reflect.New(f.sub.typ)
 			g.fillStruct(f.sub, p.Elem())
+			if f.sub.typ == tLibRing && r.Intn(3) == 0 {
+				p.Elem().FieldByName("Next").Set(p) // the pointee refers to itself
+			}
 			v.Set(p)
+		}
+	case kUntouched:
+		if zero || r.Intn(2) == 0 {
+			return // nil interface / zero value Config
+		}
+		switch f.flavour {
+		case "interface-with-initdefaults":
+			c := newLibConn(r)
+			v.Set(reflect.ValueOf(&c))
+		case "config-by-value":
+			tree := g.cfgTree(r.Intn(4) == 0)
+			if c := newConfig(tree); c != nil {
+				cv := reflect.ValueOf(*c)
+				if g.cfgs != nil {
+					g.cfgs[cv.FieldByName("fields").Pointer()] = tree
+				}
+				v.Set(cv)
+			}
 		}
 	case kSlicePrim, kSliceStruct:
 		if zero && r.Intn(3) > 0 {
@@ -520,14 +558,24 @@ func (g *vgen) cfgStruct(st *stype, pre reflect.Value, must bool, stats *cfgStat
 			}
 			continue
 		}
+		if f.kind == kUntouched {
+			// never mentioned; an explicit null is no setting either
+			if r.Intn(6) == 0 {
+				c.fields[f] = &cval{null: true, form: "raw"}
+				stats.nulls++
+			}
+			continue
+		}
 		var fpre reflect.Value
 		if pre.IsValid() {
 			fpre = pre.Field(f.idx)
 		}
 		if f.inline {
-			if sub := g.cfgStruct(f.sub, fpre, false, stats); len(sub.fields) > 0 {
+			if sub := g.cfgStruct(f.sub, deref(fpre), false, stats); len(sub.fields) > 0 {
 				c.fields[f] = sub
-				real++
+				if sub.real > 0 {
+					real++
+				}
 			}
 			continue
 		}
@@ -563,6 +611,7 @@ func (g *vgen) cfgStruct(st *stype, pre reflect.Value, must bool, stats *cfgStat
 			}
 		}
 	}
+	c.real = real
 	return c
 }
 
@@ -680,6 +729,8 @@ func (g *vgen) cfgField(f *field, pre reflect.Value, stats *cfgStats) *cval {
 // pointer / map (to check that untouched reference fields keep their identity).
 type copier struct {
 	twin map[uintptr]uintptr // source pointer or map -> its copy
+	// made: the copies of the pointers met so far (values may contain themselves)
+	made map[uintptr]reflect.Value
 	// cfgs: the trees the *Config values were built from; a *Config is copied
 	// by building a new one from its tree (without cfgs it is shared)
 	cfgs map[uintptr]*model.Node
@@ -702,13 +753,39 @@ func (c *copier) copy(v reflect.Value) reflect.Value {
 			}
 			return n
 		}
+		if n, ok := c.made[v.Pointer()]; ok && n.Type() == v.Type() {
+			return n
+		}
 		n := reflect.New(v.Type().Elem())
-		n.Elem().Set(c.copy(v.Elem()))
+		if c.made == nil {
+			c.made = map[uintptr]reflect.Value{}
+		}
+		c.made[v.Pointer()] = n
 		if c.twin != nil {
 			c.twin[v.Pointer()] = n.Pointer()
 		}
+		n.Elem().Set(c.copy(v.Elem()))
+		return n
+	case reflect.Interface:
+		if v.IsNil() {
+			return v
+		}
+		n := reflect.New(v.Type()).Elem()
+		n.Set(c.copy(v.Elem()))
 		return n
 	case reflect.Struct:
+		switch v.Type() {
+		case tRegexp:
+			return v // immutable
+		case tConfigVal:
+			// rebuilt from the tree it was made from (shared if unknown or zero)
+			if tree := c.cfgs[v.FieldByName("fields").Pointer()]; tree != nil {
+				if nc := newConfig(tree); nc != nil {
+					return reflect.ValueOf(*nc)
+				}
+			}
+			return v
+		}
 		n := reflect.New(v.Type()).Elem()
 		n.Set(v) // carries the unexported fields (value kinds only) along
 		for i := 0; i < v.NumField(); i++ {
@@ -716,7 +793,7 @@ func (c *copier) copy(v reflect.Value) reflect.Value {
 				continue
 			}
 			switch v.Field(i).Kind() {
-			case reflect.Ptr, reflect.Struct, reflect.Slice, reflect.Array, reflect.Map:
+			case reflect.Ptr, reflect.Struct, reflect.Slice, reflect.Array, reflect.Map, reflect.Interface:
 				n.Field(i).Set(c.copy(v.Field(i)))
 			}
 		}
@@ -775,7 +852,29 @@ func renderTo(b *strings.Builder, v reflect.Value) {
 		}
 		b.WriteByte('&')
 		renderTo(b, v.Elem())
+	case reflect.Interface:
+		if v.IsNil() {
+			b.WriteString("nil-interface")
+			return
+		}
+		renderTo(b, v.Elem())
 	case reflect.Struct:
+		switch v.Type() {
+		case tRegexp:
+			b.WriteString("regexp(" + strconv.Quote(rxString(v)) + ")")
+			return
+		case tConfigVal:
+			b.WriteString("Config(" + configValCanon(v) + ")")
+			return
+		case tLibRing:
+			// may contain itself: the next node is not followed
+			next := "nil"
+			if !v.Field(2).IsNil() {
+				next = "&..."
+			}
+			fmt.Fprintf(b, "{V:%d W:%q Next:%s}", v.Field(0).Int(), v.Field(1).String(), next)
+			return
+		}
 		b.WriteByte('{')
 		for i := 0; i < v.NumField(); i++ {
 			if i > 0 {
@@ -842,6 +941,19 @@ func configCanon(v reflect.Value) string {
 	return s
 }
 
+// configValCanon observes the contents of a Config held by value.
+func configValCanon(v reflect.Value) string {
+	if !v.CanInterface() {
+		return "unreadable:unexported"
+	}
+	c := v.Interface().(ucfg.Config)
+	s, err := obs.Top(&c, ucfg.PathSep("."))
+	if err != nil {
+		return "unreadable:" + err.Error()
+	}
+	return s
+}
+
 // equal is a deep equality that also reads unexported fields. strict: nil and
 // empty slices / maps are different (used where a field must be untouched).
 func equal(a, b reflect.Value, strict bool) bool {
@@ -858,7 +970,25 @@ func equal(a, b reflect.Value, strict bool) bool {
 			return ca == cb && !strings.HasPrefix(ca, "unreadable:")
 		}
 		return equal(a.Elem(), b.Elem(), strict)
+	case reflect.Interface:
+		if a.IsNil() || b.IsNil() {
+			return a.IsNil() == b.IsNil()
+		}
+		return equal(a.Elem(), b.Elem(), strict)
 	case reflect.Struct:
+		if a.Type() != b.Type() {
+			return false
+		}
+		switch a.Type() {
+		case tRegexp:
+			return rxString(a) == rxString(b)
+		case tConfigVal:
+			return configValCanon(a) == configValCanon(b)
+		case tLibRing:
+			// may contain itself: the next node is compared by identity where
+			// it matters, here only nil against not nil
+			return a.Field(0).Int() == b.Field(0).Int() && a.Field(1).String() == b.Field(1).String() && a.Field(2).IsNil() == b.Field(2).IsNil()
+		}
 		for i := 0; i < a.NumField(); i++ {
 			if !equal(a.Field(i), b.Field(i), strict) {
 				return false
